@@ -44,7 +44,7 @@ _add(
 _add(
     "C13",
     rule="(a) RecordTensor built with (dt, duration, inclusive) incl. non-representable ratios over 7 storage kinds, id-filled to several fill levels and pointer positions, then 1-4 assignments of dt / duration / inclusive judged by the literal size formula and read(k) before/after; (b) add/edit/remove of shape constraints on an initialised record; (c) random reconstrain add/edit/remove + value assignment sequences on ShapedTensor (strict and non-strict, positive and negative dims, buffer/Parameter/None/empty) against a dict model. One evaluation = one assignment / reconstrain judged. distinct = (part, operation, grow/shrink/no-op, storage state and kind, size classes, strictness, dim sign) abstractions.",
-    required=["resize_readbacks", "temporal.grow.initialised", "temporal.shrink.initialised", "temporal.grow.uninitialised", "temporal.shrink.uninitialised", "recshape_ops", "shaped_reconstrain_ops", "shaped_refusals", "valid_flag_checks", "flag_toggles", "compatible_queries", "lazy_recshape_ops", "sibling_isolation_checks", "resizes_of_records_with_other_element_types"],
+    required=["resize_readbacks", "temporal.grow.initialised", "temporal.shrink.initialised", "temporal.grow.uninitialised", "temporal.shrink.uninitialised", "recshape_ops", "shaped_reconstrain_ops", "shaped_refusals", "valid_flag_checks", "flag_toggles", "compatible_queries", "lazy_recshape_ops", "sibling_isolation_checks", "resizes_of_records_with_other_element_types", "resizes_after_align_to_a_negative_index"],
     floor={"quick": 150, "thorough": 250},
     text="Held on every resize / reconstrain explored: each assignment of dt, duration, inclusive or a shape constraint on the real RecordTensor / ShapedTensor is followed by a comparison of the record size with the literal formula, of read(k) with the values read before (unique ids; zeros in new slots) and of the constraint bookkeeping with a dictionary model, including refusals that must have no side effects.",
     technique="runtime monitoring: before/after observation monitor + dict reference model on the real temporal setters and reconstrain over generated configurations",
